@@ -266,7 +266,7 @@ fn stream_case(member: [bool; L], start_version: u64) {
             }
             assert!(n == want, "confirmed events of the stream missing from an unbounded stream scan");
         }
-        kani::cover!(n >= 1 || !member[0]);
+        kani::cover!(n >= 1 || wm == 0 || start_version > 0 || !member[0]);
     }
 }
 
